@@ -19,28 +19,43 @@ Proof. exact reno_cut_bounds. Qed.
 Print Assumptions C20_reno_cut_bounds.
 
 (** (a) For a sender built by NewCubicSender (Reno, as production does) with datagram size m0,
-    after ANY history of sent / acked / lost / timeout / migration / slow-start-exit events
-    and queries that contains no SetMaxDatagramSize:
-    2*mds <= cwnd <= MaxCongestionWindowPackets*mds + mds. All RTT oracle values. *)
-Theorem C20_cwnd_bounds : forall m0 srtt0 ops, 0 < m0 -> Forall (fun o => is_mtu o = false) ops ->
+    after ANY history of the events production issues — sent / acked / lost / timeout /
+    slow-start exit / queries AND SetMaxDatagramSize with any sizes (everything but the
+    never-called OnConnectionMigration): 2*mds <= cwnd <= MaxCongestionWindowPackets*mds + mds.
+    All RTT oracle values. (Before the repair of SetMaxDatagramSize this was refuted across
+    MTU increases: finding cubic/min-after-mtu.) *)
+Theorem C20_cwnd_bounds : forall m0 srtt0 ops, 0 < m0 -> Forall (fun o => is_migrate o = false) ops ->
+  let s' := run (new_sender m0 true srtt0) ops in
+  cc_minCongestionWindowPackets * mds s' <= cwnd s' /\
+  cwnd s' <= cc_maxCongestionWindowPackets * mds s' + mds s'.
+Proof.
+  exact (fun m0 srtt0 ops Hm Hf => cwnd_bounds_production (new_sender m0 true srtt0) ops eq_refl (new_sender_InvC m0 true srtt0 Hm) Hf).
+Qed.
+Print Assumptions C20_cwnd_bounds.
+
+(** the same from any state within the bounds *)
+Theorem C20_cwnd_bounds_from : forall s ops, reno s = true -> InvC s -> Forall (fun o => is_migrate o = false) ops ->
+  let s' := run s ops in
+  cc_minCongestionWindowPackets * mds s' <= cwnd s' /\
+  cwnd s' <= cc_maxCongestionWindowPackets * mds s' + mds s'.
+Proof. exact cwnd_bounds_production. Qed.
+Print Assumptions C20_cwnd_bounds_from.
+
+(** With OnConnectionMigration in the history too (it resets the window to the initial
+    32*m0): the bounds hold as long as every new datagram size m keeps that initial window
+    legal, 2*m <= 32*m0 (production: m <= 1452 <= 16*1200). *)
+Theorem C20_cwnd_bounds_all_ops : forall m0 srtt0 ops, 0 < m0 ->
+  Forall (op_fits (cc_initialCongestionWindow * m0)) ops ->
   let s' := run (new_sender m0 true srtt0) ops in
   cc_minCongestionWindowPackets * mds s' <= cwnd s' /\
   cwnd s' <= cc_maxCongestionWindowPackets * mds s' + mds s'.
 Proof.
   exact (fun m0 srtt0 ops Hm Hf => cwnd_bounds (new_sender m0 true srtt0) ops eq_refl (new_sender_Inv m0 true srtt0 Hm) Hf).
 Qed.
-Print Assumptions C20_cwnd_bounds.
+Print Assumptions C20_cwnd_bounds_all_ops.
 
-(** the same from any state that satisfies the bounds (e.g. re-established after an MTU increase) *)
-Theorem C20_cwnd_bounds_from : forall s ops, reno s = true -> Inv s -> Forall (fun o => is_mtu o = false) ops ->
-  let s' := run s ops in
-  cc_minCongestionWindowPackets * mds s' <= cwnd s' /\
-  cwnd s' <= cc_maxCongestionWindowPackets * mds s' + mds s'.
-Proof. exact cwnd_bounds. Qed.
-Print Assumptions C20_cwnd_bounds_from.
-
-(** With SetMaxDatagramSize anywhere in the history: the upper bound always holds; of the
-    lower bound only "two packets of the INITIAL size" survives. *)
+(** With arbitrary sizes AND migration: the upper bound always holds; of the lower bound
+    "two packets of the INITIAL size" survives. *)
 Theorem C20_cwnd_bounds_with_mtu : forall m0 r0 srtt0 ops, 0 < m0 -> r0 = true ->
   let s' := run (new_sender m0 r0 srtt0) ops in
   m0 <= mds s' /\ cc_minCongestionWindowPackets * m0 <= cwnd s' /\
@@ -48,44 +63,56 @@ Theorem C20_cwnd_bounds_with_mtu : forall m0 r0 srtt0 ops, 0 < m0 -> r0 = true -
 Proof. exact cwnd_bounds_with_mtu. Qed.
 Print Assumptions C20_cwnd_bounds_with_mtu.
 
-(** An MTU increase keeps the bounds when the window sits exactly at the old minimum or
-    already above the new one … *)
-Theorem C20_mtu_step_keeps_bounds : forall s m, Inv s -> mds s <= m ->
-  (cwnd s = min_cwnd s \/ m * cc_minCongestionWindowPackets <= cwnd s) ->
+(** An MTU increase always keeps the full invariant (window re-floored to the new minimum). *)
+Theorem C20_mtu_step_keeps_bounds : forall s m, reno s = true -> Inv s ->
   m * cc_minCongestionWindowPackets <= initCwnd s ->
   Inv (step s (SetMDS m)).
 Proof. exact set_mds_Inv. Qed.
 Print Assumptions C20_mtu_step_keeps_bounds.
 
-(** … and NOT otherwise (FINDING cubic/min-after-mtu): histories of production-called
-    events after which cwnd < 2*mds. *)
-Theorem C20_min_after_mtu_refuted :
-  exists ops, let s' := run (new_sender 1280 true 100000000) ops in
-    cwnd s' < cc_minCongestionWindowPackets * mds s'.
-Proof. exact min_after_mtu_refuted. Qed.
-Print Assumptions C20_min_after_mtu_refuted.
+(** Regression for finding cubic/min-after-mtu (formerly C20_min_after_mtu_refuted(_prod)): the
+    two witness histories, whose window 2688 / 2799 used to stay below 2*1452 after
+    SetMaxDatagramSize(1452), now end exactly at the new minimum 2904. *)
+Example C20_min_after_mtu_regression :
+  let a := run (new_sender 1280 true 100000000) (removelast witness_short) in
+  let a' := step a (SetMDS 1452) in
+  let b := run (new_sender 1280 true 100000000) (removelast witness_prod) in
+  let b' := step b (SetMDS 1452) in
+  cwnd a = 2688 /\ cwnd a' = 2904 /\ cwnd b = 2799 /\ cwnd b' = 2904 /\
+  cwnd a' = cc_minCongestionWindowPackets * mds a' /\ cwnd b' = cc_minCongestionWindowPackets * mds b'.
+Proof. exact min_after_mtu_regression. Qed.
+Print Assumptions C20_min_after_mtu_regression.
 
-Theorem C20_min_after_mtu_refuted_prod :
-  let s' := run (new_sender 1280 true 100000000) witness_prod in
-  cwnd s' = 2799 /\ mds s' = 1452 /\ cwnd s' < cc_minCongestionWindowPackets * mds s'.
-Proof. exact min_after_mtu_refuted_prod. Qed.
-Print Assumptions C20_min_after_mtu_refuted_prod.
-
-(** (b1) At most one reduction per window of packets: if two loss events both reduce the
-    window and no timeout / migration reset lies between them, then the second lost packet
-    was sent after the first reduction (its number exceeds the largest number sent before
-    it), provided packets sent after the first reduction carry larger numbers. From ANY
-    Reno state with non-negative window. *)
+(** (b1) At most one reduction per window of packets, for ANY numbering of the packets (the
+    sentPacketHandler feeds the packet numbers of all three packet number spaces into one
+    sender): if two loss events both reduce the window and no timeout / migration reset lies
+    between them, the second lost packet's number exceeds largestSentPacketNumber at the
+    first reduction. From ANY Reno state with non-negative window. *)
 Theorem C20_cut_once_per_window : forall s1 pn1 b1 p1 o1 mid pn2 b2 p2 o2,
   reno s1 = true -> 0 <= mds s1 -> 0 <= cwnd s1 -> 0 <= initCwnd s1 ->
   let s1' := step s1 (Lost pn1 b1 p1 o1) in
   let s2 := run s1' mid in
   let s2' := step s2 (Lost pn2 b2 p2 o2) in
-  Forall (fun o => is_reset o = false /\ sent_above (ls s1) o) mid ->
+  Forall (fun o => is_reset o = false) mid ->
   cwnd s1' < cwnd s1 -> cwnd s2' < cwnd s2 ->
   ls s1 < pn2.
 Proof. exact cut_once_per_window. Qed.
 Print Assumptions C20_cut_once_per_window.
+
+(** … hence, for every sequence of calls the handler can make: the packet whose loss causes
+    the second reduction is none of the ack-eliciting packets sent (in whatever space)
+    before the first reduction. *)
+Theorem C20_cut_once_per_window_history : forall s0 pre pn1 b1 p1 o1 mid pn2 b2 p2 o2,
+  reno s0 = true -> 0 <= mds s0 -> 0 <= cwnd s0 -> 0 <= initCwnd s0 ->
+  let s1 := run s0 pre in
+  let s1' := step s1 (Lost pn1 b1 p1 o1) in
+  let s2 := run s1' mid in
+  let s2' := step s2 (Lost pn2 b2 p2 o2) in
+  Forall (fun o => is_reset o = false) pre -> Forall (fun o => is_reset o = false) mid ->
+  cwnd s1' < cwnd s1 -> cwnd s2' < cwnd s2 ->
+  forall t b srtt, ~ In (Sent t pn2 b true srtt) pre.
+Proof. exact cut_once_per_window_history. Qed.
+Print Assumptions C20_cut_once_per_window_history.
 
 Example C20_cut_once_nonvacuous :
   let s1 := run (new_sender 1280 true 100000000) [Sent 10 0 1280 true 100000000] in
@@ -95,10 +122,10 @@ Example C20_cut_once_nonvacuous :
 Proof. exact cut_once_example. Qed.
 Print Assumptions C20_cut_once_nonvacuous.
 
-(** … and the hypothesis [sent_above] cannot be dropped: with packet numbers of several
-    packet number spaces (what the ackhandler feeds the sender) three losses of packets all
-    sent before the first reduction cut the window three times. *)
-Example C20_cut_once_needs_monotone_pns :
+(** Regression for finding sendmode/multi-cut-pn-spaces (formerly C20_cut_once_needs_monotone_pns):
+    Handshake packets 0..5, 1-RTT packet 0, then the loss of Handshake packets 0, 1, 2 in one
+    ACK used to cut three times (40960 -> 14049); now once. *)
+Example C20_pn_space_mixing_regression :
   let s := run (new_sender 1280 true 100000000)
                [Sent 10 0 1280 true 100000000; Sent 20 1 1280 true 100000000; Sent 30 2 1280 true 100000000;
                 Sent 40 3 1280 true 100000000; Sent 50 4 1280 true 100000000; Sent 60 5 1280 true 100000000;
@@ -106,9 +133,9 @@ Example C20_cut_once_needs_monotone_pns :
   let s1 := step s (Lost 0 1280 8960 0) in
   let s2 := step s1 (Lost 1 1280 8960 0) in
   let s3 := step s2 (Lost 2 1280 8960 0) in
-  cwnd s = 40960 /\ cwnd s1 = 28672 /\ cwnd s2 = 20070 /\ cwnd s3 = 14049.
-Proof. exact pn_space_mixing_cuts_thrice. Qed.
-Print Assumptions C20_cut_once_needs_monotone_pns.
+  ls s = 5 /\ cwnd s = 40960 /\ cwnd s1 = 28672 /\ cwnd s2 = 28672 /\ cwnd s3 = 28672.
+Proof. exact pn_space_mixing_regression. Qed.
+Print Assumptions C20_pn_space_mixing_regression.
 
 (** (b2) The window never shrinks on an ACK — nor on any event other than a loss, a
     retransmission timeout or a migration. *)
